@@ -427,6 +427,15 @@ def evidence_dtype_rule(ctx):
     for series, call in history_appends(sample, repo, smc):
         if series in rebuilt and call.args:
             v = call.args[-1]
+            # the value appended, followed through the local it was bound to (the last binding before the append)
+            for _ in range(3):
+                if not isinstance(v, ast.Name):
+                    break
+                defs = [n for n in walk_no_nested(sample.node) if isinstance(n, ast.Assign) and any(isinstance(t, ast.Name) and t.id == v.id for t in n.targets)
+                        and (n.lineno, n.col_offset) < (call.lineno, call.col_offset)]
+                if not defs:
+                    break
+                v = max(defs, key=lambda n: (n.lineno, n.col_offset)).value
             if isinstance(v, ast.Call) and ((isinstance(v.func, ast.Name) and v.func.id in ("float", "int")) or (isinstance(v.func, ast.Attribute) and v.func.attr in ("item", "tolist"))):
                 narrowed[series] = call
     for series, has_dtype in sorted(rebuilt.items()):
@@ -458,6 +467,7 @@ MUTANTS = [
     M("array_to_namespace into numpy always", _S, "x = asarray(x, self.xp, **kwargs)", "x = asarray(x, np, **kwargs)", "C15.a2n"),
 ]
 MUTANTS += [
+    M("evidence ratios narrowed to Python floats before they are recorded", "src/aspire/samplers/smc/base.py", "log_evidence_ratio = samples.log_evidence_ratio(beta)", "log_evidence_ratio = float(samples.log_evidence_ratio(beta))", "C15.evid"),
     M("evidence ratios recorded as Python floats", "src/aspire/samplers/smc/base.py", "self.history.log_norm_ratio.append(log_evidence_ratio)", "self.history.log_norm_ratio.append(float(log_evidence_ratio))", "C15.evid"),
     M("namespace default dtype memoised", _S, "            self.dtype = default_dtype(self.xp)\n", "            self.dtype = _cached_default(self.xp)\n", "C15.cache",
       more=[("@dataclass\nclass BaseSamples:", "import functools\n\n\n@functools.lru_cache(maxsize=None)\ndef _cached_default(xp):\n    return default_dtype(xp)\n\n\n@dataclass\nclass BaseSamples:")]),
